@@ -8,7 +8,7 @@
         SPEC (before post): `SAME` when the analyzer reports the same connection identity for both frames
         (TCP source address / TLS directed 4-tuple / HTTP undirected 4-tuple) and both lie in the domain
         c18_dom; post turns it into `<w1> <w1>` (`WORKER WORKER` when the model discards
-        the first frame: a valid worker is demanded);  `-` otherwise.   known = raw_as_ethernet on either frame.
+        the first frame: a valid worker is demanded);  `-` otherwise.   known = 0 (the former class raw_as_ethernet is empty).
    T2 (accounting)
      Q <pool> <nworkers> <cap> <threads> <seed> <kind>:<worker|->:<id> ...
         packets: kind s (TCP SYN) u (UDP) t (IPv4 proto 6, TCP header cut) g (8 junk bytes) h (TLS ClientHello);
@@ -125,7 +125,7 @@ Definition run_line (l : bytes) : bytes :=
   | [op; c; n; h] =>
       if bytes_eqb op (bs "H") then
         match crate_ident c, read_N n, read_frame h with
-        | Some idf, Some _, Some f => out3 (show_oident (idf f)) (bs "-") (raw_as_ethernet f)
+        | Some idf, Some _, Some f => out3 (show_oident (idf f)) (bs "-") false
         | _, _, _ => bad end
       else bad
   | op :: c :: n :: rest =>
@@ -136,7 +136,7 @@ Definition run_line (l : bytes) : bytes :=
             | Some f, Some g =>
                 out3 (show_oident (idf f) ++ bs " | " ++ show_oident (idf g))
                      (if same_identity c f g && c18_dom f && c18_dom g then bs "SAME" else bs "-")
-                     (raw_as_ethernet f || raw_as_ethernet g)
+                     false
             | _, _ => bad end
         | _, _, _ => bad end
       else if bytes_eqb op (bs "Q") then
